@@ -90,7 +90,7 @@ MANIFEST = dict(
     'the C++ engine; the session model has no memo by construction - that the code has none is what the session stream checks; the data audit is '
     'modelled on what the audit can see of a frame (numeric dtype, a null entry, number of rows); NaN / non-numeric data is judged where data is '
     'supplied (Database(...), BIOGEME(...)), not at formula-level evaluation of a Database edited after its construction; '
-    'finding F-C12-empty (fixed in /repo); known finding F-C12-stale-ids: after an evaluation refused for an absent column the formula object keeps '
+    'finding F-C12-empty (fixed in /repo); finding F-C12-stale-ids (found by this check, repaired in /repo by 03d2517): after an evaluation refused for an absent column the formula object keeps '
     'the half-assigned id manager and every later evaluation with prepare_ids=True is refused although the column is there now (model = repaired '
     'behaviour, proposed_fixes/F-C12-stale-ids.diff); LogLogit.get_value with DIFFERENT keys for utilities and availabilities raises KeyError (not an '
     'observation point of the property: not judged); '
